@@ -95,7 +95,7 @@ def main(argv):
     cases += suspects
     io, mo, plans = SR.tie_and_plans(cases)
     wd = legb.Workdir()
-    nv = 0
+    nv = nfail = 0
     k3 = 0
     try:
         jobs = []
@@ -210,8 +210,9 @@ def main(argv):
                             break
             if not problem and tp:
                 problem, failing = f'correspondence legA:Builder.build broken (compiled behaviour still as demanded): {tp}', False
-            if problem and nv < 5:
+            if problem and (nv < 5 or (failing and nfail < 3)):
                 nv += 1
+                nfail += 1 if failing else 0
                 rep.violation(problem, {'file': c['file'], 'configuration': c['cfg'], 'history': bad_h, 'clients': ['A', 'B', 'C']}, failing_input=failing)
         rep.extra['compiled_shells'] = len(results)
     finally:
